@@ -290,8 +290,14 @@ def head_of(trace, max_events):
     return out, n
 
 
-def judge_trace(ctx, name, trace, beh_path, nkeys, layer_i, source, layer_budget=None):
-    """Runs the property's monitor (and Layer I) over a recorded trace; files violations."""
+def judge_trace(ctx, name, trace, beh_path, nkeys, layer_i, source, layer_budget=None, all_mismatch=False):
+    """Runs the property's monitor (and Layer I) over a recorded trace; files violations.
+
+    An open finding explains a rejected event only while the code still does what the model of
+    the code as it is (Layer I with the finding's deviation switched on) does: a rejection at or
+    after the event where the code left that model is a different violation and is reported.
+    all_mismatch: every behaviour of this trace ends in an event that differs from the model's."""
+    drift_at = {}
     if layer_i and layer_budget:
         # Layer I conformance on the head of the trace, the monitor on all of it
         head, n = head_of(trace, layer_budget)
@@ -299,6 +305,7 @@ def judge_trace(ctx, name, trace, beh_path, nkeys, layer_i, source, layer_budget
             lr = V.trace_check(ctx.wd, name + "_layerI", head, [], nkeys, layer_i=True)
             ctx.conform += lr["stats"]["conform"]
             for (bid, line) in lr["drift"]:
+                drift_at.setdefault(bid, line)
                 if len(ctx.drift) < 20:
                     ctx.drift.append({"source": source, "behaviour": bid, "line": line})
         os.remove(head)
@@ -311,6 +318,8 @@ def judge_trace(ctx, name, trace, beh_path, nkeys, layer_i, source, layer_budget
     lines = None
     behs = None
     bad_bids = set()
+    for (bid, line) in res["drift"]:
+        drift_at.setdefault(bid, line)
     for (p, bid, line) in res["viol"]:
         if bid in bad_bids:
             continue
@@ -323,9 +332,13 @@ def judge_trace(ctx, name, trace, beh_path, nkeys, layer_i, source, layer_budget
         evs, idx = V.behaviour_events(lines, line)
         b = behs.get(bid, {})
         f = witness_of(ctx, evs, idx)
-        if f is not None:
+        left_model = (bid in drift_at and drift_at[bid] <= line) or (all_mismatch and idx >= len(evs) - 1)
+        if f is not None and not left_model:
             ctx.known_hits[f["id"]] = ctx.known_hits.get(f["id"], 0) + 1
             continue
+        if f is not None:
+            ctx.notes.append("behaviour %d of %s: the witness of %s is present, but the code had left the model of "
+                             "that finding when the monitor rejected the event: reported" % (bid, source, f["id"]))
         path = V.write_replay(p, b.get("cfg"), b.get("ops"), evs, idx, source)
         ctx.violation(path, "event %d of behaviour %d rejected by monitor %s" % (idx, bid, p))
     for (bid, line) in res["drift"]:
@@ -371,7 +384,7 @@ def stage_r(ctx, runs):
         if nbad:
             # the real cache did not do what Layer I does on these: the monitors decide
             nviol = len(ctx.violations)
-            judge_trace(ctx, name + "_bad", trace, beh, c["nkeys"], False, "replay:" + name)
+            judge_trace(ctx, name + "_bad", trace, beh, c["nkeys"], False, "replay:" + name, all_mismatch=True)
             for m in summary["mismatches"][:20]:
                 ctx.drift.append({"source": name, "behaviour": m.get("id"), "what": m.get("what")})
             ctx.traces_ok += n - nbad
@@ -855,8 +868,8 @@ def run_c15(ctx, plan):
 # the concurrent cache under several threads (modes S and F)
 
 CONC_PROGS = {"ii": 2, "ii2": 2, "ixi": 2, "upd": 2, "rej": 2, "syncs": 2, "ia": 2, "wgt": 2, "xget": 2,
-              "ttl": 2, "tti": 2, "three": 3, "three2": 3, "burst": 2, "ttix": 2, "grow": 2}
-CONC_QUICK = ["ii", "upd", "rej", "ixi", "wgt", "xget", "burst", "ttix", "grow"]
+              "ttl": 2, "tti": 2, "three": 3, "three2": 3, "burst": 2, "ttix": 2, "grow": 2, "iax": 2}
+CONC_QUICK = ["ii", "upd", "rej", "ixi", "wgt", "xget", "burst", "ttix", "grow", "iax"]
 CONC_LIGHT = ["ii", "rej", "syncs", "grow"]
 
 
@@ -1009,6 +1022,24 @@ def stage_conc_f(ctx, runs, threads, ops):
     os.remove(trace)
 
 
+def stage_race(ctx, runs, attempts):
+    """One write against a spinning reader on real threads, many times: the windows inside an
+    operation that have no switch point."""
+    name = "cf_race"
+    trace = os.path.join(ctx.wd, name + ".trace.ndjson")
+    hr = V.harness(["free", "race", str(ctx.seed), str(runs), str(attempts), trace], timeout=1800)
+    if hr.returncode not in (0, 3):
+        with open(trace, "a") as f:
+            f.write(json.dumps({"ev": "Crash", "rc": hr.returncode}) + "\n")
+    st, viol, drift = conc_trace_check(ctx, name, trace, [ctx.prop], threads=3)
+    ctx.events += st["events"]
+    ctx.nontrivial += st["nt"].get(ctx.prop, 0)
+    bad = conc_verdict(ctx, name, trace, None, viol)
+    ctx.traces_ok += st["behaviours"] - len(bad)
+    log("[race] %d behaviours of %d attempts, %d events, %d judged" % (runs, attempts, st["events"], st["nt"].get(ctx.prop, 0)))
+    os.remove(trace)
+
+
 def stage_iter(ctx):
     """C16 beside concurrent writers: iterator threads walk the cache while writer threads update a
     fixed key set; every iteration must yield every key once with a value current during it."""
@@ -1086,6 +1117,7 @@ def run_conc_property(ctx):
     stage_conc_s(ctx, progs, 400 if quick else 0, 300 if quick else 5000)
     if ctx.prop == "C02":
         stage_conc_f(ctx, 30 if quick else 600, 4, 25)
+        stage_race(ctx, 30 if quick else 600, 10)
     else:
         stage_burst(ctx, 5000 if quick else 50000)
 
